@@ -235,6 +235,13 @@ func (c *checkSchema) ensureShortcutKeysAreValid(node *ischema.ObjectNode) error
 }
 
 func actualRootType(s, root *ischema.ISchema) json.Type {
+	return actualRootTypeOf(s, root, make(map[string]struct{}, 2))
+}
+
+// actualRootTypeOf is the worker of actualRootType. The visiting set holds the
+// names of the types that are being resolved, so that types referring to each
+// other (example: @aaa is "@aaa | @bbb") do not cause an infinite recursion.
+func actualRootTypeOf(s, root *ischema.ISchema, visiting map[string]struct{}) json.Type {
 	t := s.RootNode().Type()
 	if t != json.TypeMixed {
 		return t
@@ -245,11 +252,16 @@ func actualRootType(s, root *ischema.ISchema) json.Type {
 		types := make(map[json.Type]struct{}, 2)
 		var tt json.Type
 		for _, tn := range n.GetTypes() {
+			if _, ok := visiting[tn]; ok {
+				return json.TypeMixed
+			}
 			ss, err := root.Type(tn)
 			if err != nil {
 				return json.TypeMixed
 			}
-			tt = actualRootType(ss, root)
+			visiting[tn] = struct{}{}
+			tt = actualRootTypeOf(ss, root, visiting)
+			delete(visiting, tn)
 			types[tt] = struct{}{}
 		}
 		if len(types) == 1 { // all USER TYPES (example: @aaa | @bbb) have the same type (example: string)
